@@ -389,8 +389,13 @@ impl ValueSetT for ValueSetKeyInternal {
 
         for (k_other, v_other) in b.iter() {
             if let Some(v_self) = map.get_mut(k_other) {
-                // Revoked is always a greater status than retained or valid.
-                if v_other.status > v_self.status {
+                // Revoked is always a greater status than retained or valid. When both
+                // sides hold the same status (the same key was retained or revoked
+                // independently on two replicas) the earliest status change wins, as
+                // for sessions, so that the result does not depend on the merge order.
+                if v_other.status > v_self.status
+                    || (v_other.status == v_self.status && v_other.status_cid < v_self.status_cid)
+                {
                     *v_self = v_other.clone();
                 }
             } else {
